@@ -11,6 +11,14 @@
 //!       the real `score_psms(&mut feats, tol)` (kind 0 = Tolerance::Ppm(lo,hi), 1 = Tolerance::Da(lo,hi)) on PSM
 //!       features that start, as in `Scorer`, with discriminant_score = 0.0 and posterior_error = 1.0; fit = 0
 //!       when `score_psms` returns None (then it has not touched the two fields).
+//!   kdeseq [M (model = [n (u64 score, decoy)…] bins u64(bw) mono)…] [S step…]   step = `0 i` (build model i now)
+//!          | `1 i u64(score)` (query the estimator last built for model i)   ->  [Q u64 pep…] one per query
+//!       all steps run back to back on ONE thread (the request's own): a hidden state shared between
+//!       estimators (memo keyed by the score only, cached grid, …) makes an answer depend on earlier steps.
+//!   kdepool <kde request>  ->  [5 ([m u64 pep…])] the same estimator built and swept inside rayon pools of
+//!       1, 2, 3, 4, 8 threads; the five replies must be bit-identical.
+//!   psmpepseq [K (psmpep request without the op name)…]  ->  K psmpep replies, the K calls of `score_psms` made
+//!       back to back inside one single-threaded pool.
 use super::Info;
 use crate::proto::{Case, Out, Rng, Tier, Toks};
 use sage_core::mass::Tolerance;
@@ -19,7 +27,7 @@ use sage_core::ml::linear_discriminant::score_psms;
 use sage_core::scoring::Feature;
 use std::sync::OnceLock;
 
-pub const OPS: &[&str] = &["kde", "psmpep"];
+pub const OPS: &[&str] = &["kde", "psmpep", "kdeseq", "kdepool", "psmpepseq"];
 pub const INFO: Info = Info {
     rule: "score samples with both classes present: overlapping / separated / tight-decoy / 1:1000 imbalance / \
            duplicated (few distinct values) / tiny (2+2) / large common offset; n 4..400 (quick) or ..3000 \
@@ -36,16 +44,31 @@ pub const INFO: Info = Info {
            feature, only targets, only decoys, 1-4 PSMs, identical rows). Stream `degenerate` (kde, outside the \
            precondition, model agreement checked, spec `na` or the zero-variance clause): n = 1, n = 2, a single \
            class, all scores equal, a NaN/+inf/-inf score, bins = 1, bins = 0 (panic), queries outside [min,max] \
-           and non-finite queries",
+           and non-finite queries. kdeseq: 2-4 well-formed estimators built and queried back to back on one thread — chain \
+           (estimator k+1's first query is bit-for-bit estimator k's last), interleave (the same score asked of A,B,(C),A,B,…), \
+           twin (the same sample fitted twice, another in between, a rebuild in the middle), sweep-then-sweep (control). \
+           kdepool: one estimator (100 / 1000 bins) built inside pools of 1,2,3,4,8 threads. psmpepseq: score_psms on \
+           tables A,B / A,B,A / C,C in one single-threaded pool",
     serial: false,
 };
 
+static POOLS: OnceLock<Vec<rayon::ThreadPool>> = OnceLock::new();
+
+fn static_pools(i: usize) -> &'static rayon::ThreadPool {
+    &POOLS.get().expect("pools")[i]
+}
+
 fn pool(k: usize) -> &'static rayon::ThreadPool {
-    static POOLS: OnceLock<Vec<rayon::ThreadPool>> = OnceLock::new();
     let pools = POOLS.get_or_init(|| {
-        (1..=4).map(|n| rayon::ThreadPoolBuilder::new().num_threads(n).build().expect("pool")).collect()
+        [1usize, 2, 3, 4, 8].iter().map(|&n| rayon::ThreadPoolBuilder::new().num_threads(n).build().expect("pool")).collect()
     });
-    &pools[k % pools.len()]
+    &pools[k % 4]
+}
+
+/// the pool with exactly 1, 2, 3, 4 or 8 threads (index 0..5)
+fn pool_ix(i: usize) -> &'static rayon::ThreadPool {
+    let _ = pool(0);
+    static_pools(i)
 }
 
 struct KdeCase {
@@ -383,6 +406,200 @@ pub fn gen(rng: &mut Rng, tier: Tier, emit: &mut dyn FnMut(Case)) {
 
     gen_degenerate(rng, tier, emit);
     gen_psm(rng, tier, emit);
+    gen_seq(rng, tier, emit);
+}
+
+/// well-formed model for the sequence ops: both classes with >= 2 distinct scores, and (envelope off) dense
+fn seq_model(rng: &mut Rng) -> ModelSpec {
+    loop {
+        let shape = *rng.pick(&["overlapping", "separated", "tight-decoy", "duplicated", "tiny"]);
+        let n = 6 + rng.below(50);
+        let (scores, decoys) = sample(rng, shape, n);
+        let bins = *rng.pick(&[7usize, 100, 100, 1000]);
+        let mono = rng.chance(3, 4);
+        let bw = *rng.pick(&[1.0, 1.0, 2.0, 0.5]);
+        let c = KdeCase { scores, decoys, bins, bw, mono, sweep: vec![] };
+        if well_formed(&c) && (c.mono || dense(&c)) {
+            return ModelSpec { scores: c.scores, decoys: c.decoys, bins, bw, mono };
+        }
+    }
+}
+
+fn seq_request(models: &[ModelSpec], steps: &[(usize, Option<f64>)]) -> String {
+    let mut o = Out::new();
+    o.raw("kdeseq").n(models.len());
+    for m in models {
+        o.n(m.scores.len());
+        for (s, d) in m.scores.iter().zip(&m.decoys) {
+            o.f64(*s).b(*d);
+        }
+        o.n(m.bins).f64(m.bw).b(m.mono);
+    }
+    o.n(steps.len());
+    for (i, s) in steps {
+        match s {
+            None => {
+                o.n(0).n(*i);
+            }
+            Some(x) => {
+                o.n(1).n(*i).f64(*x);
+            }
+        }
+    }
+    o.finish()
+}
+
+/// a few query scores for a model: grid points, data points, random interior points
+fn seq_points(rng: &mut Rng, m: &ModelSpec, k: usize) -> Vec<f64> {
+    let g = grid(&m.scores, m.bins);
+    let (lo, hi) = min_max(&m.scores);
+    (0..k)
+        .map(|_| match rng.below(3) {
+            0 => *rng.pick(&g),
+            1 => *rng.pick(&m.scores),
+            _ => lo + (hi - lo) * rng.unit(),
+        })
+        .collect()
+}
+
+/// sequences of builds and queries on SEVERAL estimators, back to back on one thread: each answer must be that
+/// estimator's own value whatever was built or asked before (hidden shared state, e.g. a memo keyed by the score only)
+fn gen_seq(rng: &mut Rng, tier: Tier, emit: &mut dyn FnMut(Case)) {
+    let reps = if tier == Tier::Quick { 3 } else { 40 };
+    for _ in 0..reps {
+        // chain: model k+1's FIRST query is bit-for-bit model k's LAST query
+        {
+            let m = 2 + rng.below(3);
+            let models: Vec<ModelSpec> = (0..m).map(|_| seq_model(rng)).collect();
+            let mut steps = Vec::new();
+            let mut last: Option<f64> = None;
+            for i in 0..m {
+                steps.push((i, None));
+                if let Some(x) = last {
+                    steps.push((i, Some(x)));
+                }
+                for x in seq_points(rng, &models[i], 4) {
+                    steps.push((i, Some(x)));
+                    last = Some(x);
+                }
+            }
+            // and back to the first model with the last score
+            steps.push((0, last));
+            emit(Case::new(seq_request(&models, &steps)).tag("seq-chain"));
+        }
+        // interleave: the same score asked of A, B, (C), A, B, … ; all estimators built first
+        {
+            let m = 2 + rng.below(2);
+            let models: Vec<ModelSpec> = (0..m).map(|_| seq_model(rng)).collect();
+            let mut steps: Vec<(usize, Option<f64>)> = (0..m).map(|i| (i, None)).collect();
+            let mut pts = Vec::new();
+            for mm in &models {
+                pts.extend(seq_points(rng, mm, 3));
+            }
+            for x in pts {
+                for round in 0..2 {
+                    for i in 0..m {
+                        let _ = round;
+                        steps.push((i, Some(x)));
+                    }
+                }
+            }
+            emit(Case::new(seq_request(&models, &steps)).tag("seq-interleave"));
+        }
+        // twin: the same sample fitted twice (two estimators), a different one in between, a rebuild in the middle
+        {
+            let a = seq_model(rng);
+            let b = seq_model(rng);
+            let a2 = ModelSpec { scores: a.scores.clone(), decoys: a.decoys.clone(), bins: a.bins, bw: a.bw, mono: a.mono };
+            let pts = seq_points(rng, &a, 4);
+            let models = vec![a, b, a2];
+            let mut steps = vec![(0, None)];
+            for &x in &pts {
+                steps.push((0, Some(x)));
+            }
+            steps.push((1, None));
+            steps.push((1, Some(*pts.last().unwrap())));
+            steps.push((2, None));
+            steps.push((2, Some(*pts.last().unwrap())));
+            for &x in &pts {
+                steps.push((1, Some(x)));
+                steps.push((2, Some(x)));
+                steps.push((0, Some(x)));
+            }
+            steps.push((0, None)); // rebuild the first
+            for &x in &pts {
+                steps.push((0, Some(x)));
+            }
+            emit(Case::new(seq_request(&models, &steps)).tag("seq-twin"));
+        }
+        // control: the full list on A, then the full list on B
+        {
+            let models = vec![seq_model(rng), seq_model(rng)];
+            let mut pts = seq_points(rng, &models[0], 4);
+            pts.extend(seq_points(rng, &models[1], 4));
+            let mut steps = vec![(0, None), (1, None)];
+            for i in 0..2 {
+                for &x in &pts {
+                    steps.push((i, Some(x)));
+                }
+            }
+            emit(Case::new(seq_request(&models, &steps)).tag("seq-sweep-then-sweep"));
+        }
+    }
+
+    // ---- the same estimator built inside rayon pools of 1, 2, 3, 4, 8 threads: bit-identical answers
+    let reps = if tier == Tier::Quick { 6 } else { 60 };
+    for k in 0..reps {
+        let shape = *rng.pick(&["overlapping", "separated", "tight-decoy"]);
+        let n = 40 + rng.below(if tier == Tier::Quick { 200 } else { 1500 });
+        let (scores, decoys) = sample(rng, shape, n);
+        let bins = if k % 2 == 0 { 1000 } else { 100 };
+        let sw = sweep(rng, &scores, bins, 10);
+        let mut c = KdeCase { scores, decoys, bins, bw: 1.0, mono: k % 3 != 2, sweep: sw };
+        if !well_formed(&c) {
+            continue;
+        }
+        if !c.mono && !dense(&c) {
+            c.mono = true;
+        }
+        let r = request(&c);
+        emit(Case::new(format!("kdepool{}", &r[3..])).tag("pool-sizes").tag(if c.mono { "monotonic" } else { "non-monotonic" }));
+    }
+
+    // ---- score_psms called several times in one request (same single-threaded pool)
+    let reps = if tier == Tier::Quick { 1 } else { 10 };
+    for _ in 0..reps {
+        let mut set = |rng: &mut Rng, n: usize, ladder: bool| -> Vec<Feature> {
+            let mut feats = Vec::new();
+            for _ in 0..n {
+                if rng.chance(1, 2) {
+                    let q = gauss(rng);
+                    feats.push(psm(rng, true, q));
+                } else {
+                    let q = if rng.chance(1, 3) { gauss(rng) } else { 3.0 + gauss(rng) };
+                    feats.push(psm(rng, false, q));
+                }
+            }
+            if ladder {
+                for i in 0..6 {
+                    feats.push(psm(rng, false, 6.0 + 3.0 * i as f64));
+                }
+            }
+            feats
+        };
+        let (na, nb, nc) = (150 + rng.below(150), 900 + rng.below(300), 80 + rng.below(100));
+        let a = set(rng, na, false);
+        let b = set(rng, nb, true);
+        let c = set(rng, nc, false);
+        for (tag, seqs) in [("psmseq-AB", vec![&a, &b]), ("psmseq-ABA", vec![&a, &b, &a]), ("psmseq-CC", vec![&c, &c])] {
+            let mut line = format!("psmpepseq {}", seqs.len());
+            for fs in seqs {
+                let r = psm_request(0, -10.0, 10.0, fs);
+                line.push_str(&r["psmpep".len()..]);
+            }
+            emit(Case::new(line).tag(tag));
+        }
+    }
 }
 
 /// inputs OUTSIDE the property's precondition: every path of `build`/`posterior_error` they reach is mirrored by
@@ -572,12 +789,27 @@ fn gen_psm(rng: &mut Rng, tier: Tier, emit: &mut dyn FnMut(Case)) {
 pub fn exec(op: &str, t: &mut Toks) -> Option<String> {
     match op {
         "kde" => exec_kde(t),
-        "psmpep" => exec_psmpep(t),
+        "psmpep" => {
+            let r = exec_psmpep_one(t, None)?;
+            if t.done() { Some(r) } else { None }
+        }
+        "kdeseq" => exec_kdeseq(t),
+        "kdepool" => exec_kdepool(t),
+        "psmpepseq" => {
+            let k = t.usize()?;
+            let mut o = Out::new();
+            for _ in 0..k {
+                // one thread for the whole sequence
+                let r = exec_psmpep_one(t, Some(pool_ix(0)))?;
+                o.raw(&r);
+            }
+            if t.done() { Some(o.finish()) } else { None }
+        }
         _ => None,
     }
 }
 
-fn exec_psmpep(t: &mut Toks) -> Option<String> {
+fn exec_psmpep_one(t: &mut Toks, fixed: Option<&'static rayon::ThreadPool>) -> Option<String> {
     let kind = t.usize()?;
     let lo = t.f32()?;
     let hi = t.f32()?;
@@ -611,11 +843,8 @@ fn exec_psmpep(t: &mut Toks) -> Option<String> {
         f.posterior_error = 1.0;
         Some(f)
     })?;
-    if !t.done() {
-        return None;
-    }
     let tol = if kind == 0 { Tolerance::Ppm(lo, hi) } else { Tolerance::Da(lo, hi) };
-    let fit = pool(feats.len()).install(|| score_psms(&mut feats, tol)).is_some();
+    let fit = fixed.unwrap_or_else(|| pool(feats.len())).install(|| score_psms(&mut feats, tol)).is_some();
     let mut o = Out::new();
     o.b(fit).n(feats.len());
     for f in &feats {
@@ -646,6 +875,81 @@ fn exec_kde(t: &mut Toks) -> Option<String> {
     o.n(out.len());
     for v in out {
         o.f64(v);
+    }
+    Some(o.finish())
+}
+
+struct ModelSpec {
+    scores: Vec<f64>,
+    decoys: Vec<bool>,
+    bins: usize,
+    bw: f64,
+    mono: bool,
+}
+
+fn parse_model(t: &mut Toks) -> Option<ModelSpec> {
+    let pairs = t.list(|t| Some((t.f64()?, t.bool()?)))?;
+    Some(ModelSpec {
+        scores: pairs.iter().map(|p| p.0).collect(),
+        decoys: pairs.iter().map(|p| p.1).collect(),
+        bins: t.usize()?,
+        bw: t.f64()?,
+        mono: t.bool()?,
+    })
+}
+
+fn build_model(m: &ModelSpec) -> sage_core::ml::kde::Estimator {
+    let bw = m.bw;
+    Builder::default().monotonic(m.mono).bins(m.bins).bw_adjust(move |x| x * bw).build(&m.scores, &m.decoys)
+}
+
+fn exec_kdeseq(t: &mut Toks) -> Option<String> {
+    let models = t.list(parse_model)?;
+    let steps = t.list(|t| {
+        let kind = t.usize()?;
+        let i = t.usize()?;
+        let s = if kind == 1 { Some(t.f64()?) } else { None };
+        Some((i, s))
+    })?;
+    if !t.done() {
+        return None;
+    }
+    // everything on THIS thread, in request order (no pool.install: a worker waiting inside `build` could
+    // steal another request's job and interleave its queries)
+    let mut built: Vec<Option<sage_core::ml::kde::Estimator>> = models.iter().map(|_| None).collect();
+    let mut out = Vec::new();
+    for (i, s) in steps {
+        let m = models.get(i)?;
+        match s {
+            None => built[i] = Some(build_model(m)),
+            Some(score) => out.push(built[i].as_ref()?.posterior_error(score)),
+        }
+    }
+    let mut o = Out::new();
+    o.n(out.len());
+    for v in out {
+        o.f64(v);
+    }
+    Some(o.finish())
+}
+
+fn exec_kdepool(t: &mut Toks) -> Option<String> {
+    let m = parse_model(t)?;
+    let sweep = t.list(|t| t.f64())?;
+    if !t.done() {
+        return None;
+    }
+    let mut o = Out::new();
+    o.n(5);
+    for p in 0..5 {
+        let vals: Vec<f64> = pool_ix(p).install(|| {
+            let est = build_model(&m);
+            sweep.iter().map(|s| est.posterior_error(*s)).collect()
+        });
+        o.n(vals.len());
+        for v in vals {
+            o.f64(v);
+        }
     }
     Some(o.finish())
 }
